@@ -36,6 +36,7 @@ def check(ck):
     r19_3(ck, procs)
     r19_4(ck)
     r19_5(ck)
+    r19_6(ck)
 
 
 def process_classes(ck):
@@ -464,3 +465,61 @@ def r19_5(ck):
     ck.require(ok, 'R19.5', f, rets[0] if rets else f.node.name,
                "every tick advances the timeline's clock by the timestep",
                "next_update no longer adds the timestep to global.time")
+
+
+def r19_6(ck):
+    ck.rule('R19.6', 'what an event sets is what arrives: the merge used to '
+            'combine the changes of the events of one tick lets a later '
+            'value replace an earlier one; ports are told apart by list '
+            'membership, never by a substring test; the value of a set '
+            "update is used as it is (C08 R08.11)")
+    f = ck.fn('deep_merge_combine_lists', 'library.dict_utils')
+    cfg = cfg_of(f.node)
+    dct, mrg = A.params_of(f.node)[:2]
+    over = [s2 for s2 in A.walk_no_nested(f.node)
+            if isinstance(s2, ast.Assign) and isinstance(
+                s2.targets[0], ast.Subscript) and A.is_name(
+                s2.targets[0].value, dct)]
+    keep = [c for c in A.calls_in(f.node, 'setdefault')
+            if A.is_name(A.call_receiver(c), dct)]
+    ok = bool(over) and not keep
+    ck.require(ok, 'R19.6', f, keep[0] if keep else f.node.name,
+               'a scalar that is already present is overwritten by the '
+               'later value',
+               'deep_merge_combine_lists keeps the value that is already '
+               'there (setdefault): when two events of one tick set the '
+               'same variable the earlier value wins and the later event '
+               'is lost', keep[0] if keep else None)
+    for s2 in over:
+        v = s2.value
+        ok = mrg in A.names_in(v) or any(
+            d.kind == 'for' for d in local_defs(f.node).get(
+                A.unparse(v), []))
+        ck.require(ok, 'R19.6', f, s2,
+                   'the value written comes from the dictionary merged in',
+                   None, s2)
+    tp = ck.repo.cls('TimelineProcess')
+    n = 0
+    for m in tp.methods.values():
+        for cmp_ in ast.walk(m.node):
+            if isinstance(cmp_, ast.Compare) and len(cmp_.ops) == 1 and \
+                    isinstance(cmp_.ops[0], (ast.In, ast.NotIn)):
+                n += 1
+                right = cmp_.comparators[0]
+                is_str = isinstance(right, ast.Constant) and isinstance(
+                    right.value, str)
+                if isinstance(right, ast.Name):
+                    ds = [d for d in local_defs(m.node).get(right.id, [])]
+                    is_str = bool(ds) and all(
+                        isinstance(d.value, ast.Constant) and isinstance(
+                            d.value.value, str) for d in ds)
+                ck.require(not is_str, 'R19.6', m, cmp_,
+                           'membership is tested against a collection',
+                           '`%s` tests membership in a STRING (substring '
+                           'semantics): every port whose name is a '
+                           'substring of it is treated like the clock port '
+                           'and silently left out of the schema' %
+                           A.unparse(cmp_), cmp_)
+    ck.floor('R19.6', n, 1, 'membership tests in TimelineProcess')
+    from . import c08
+    c08.r08_11(ck, rule='R19.6')
